@@ -43,10 +43,12 @@ structure PI (ex : Option Nat) (fl : Nat) (T : Nat → Prop) (C : List Nat) (s :
   sorted : ∀ i, (chain (s.th i)).Pairwise (fun a b => a.ts ≤ b.ts)
   leNow : ∀ i, ∀ st ∈ chain (s.th i), st.ts ≤ s.now
   qc : ∀ i, QC (s.th i)
-  bufCache : ∀ i, (s.th i).buf ≠ [] → i ∈ s.cache
+  reg : ∀ i, chain (s.th i) ≠ [] → i ∈ s.registry
+  bufCache : ∀ i ∈ s.registry, (s.th i).buf ≠ [] → i ∈ s.cache
   cacheReg : ∀ i ∈ s.cache, i ∈ s.registry
   fresh : s.newFlag = false → ∀ i ∈ s.registry, i ∈ s.cache
   ctxLt : ∀ a x i, s.actor a = some x → x.ctx = some i → i < s.ths.length
+  ctxReg : ∀ a x i, s.actor a = some x → x.ctx = some i → i ∈ s.registry ∧ (s.th i).valid = true
   ctxInj : ∀ a b x y i, s.actor a = some x → s.actor b = some y → x.ctx = some i → y.ctx = some i → a = b
   pend : ∀ a x st, s.actor a = some x → some a ≠ ex → isPendOf x.pend st →
            st.ts ≤ s.now ∧ 0 < st.size ∧ ∀ i, x.ctx = some i → ∀ r ∈ chain (s.th i), r.ts ≤ st.ts
@@ -68,8 +70,9 @@ structure ThEq (t t' : Th) : Prop where
   wpos : t'.q.wpos = t.q.wpos
   wh : t'.q.wHist.headD 0 = t.q.wHist.headD 0
   rpos : t'.q.rpos = t.q.rpos
+  valid : t'.valid = t.valid
 
-theorem ThEq.refl (t : Th) : ThEq t t := ⟨rfl, rfl, rfl, rfl, rfl, rfl⟩
+theorem ThEq.refl (t : Th) : ThEq t t := ⟨rfl, rfl, rfl, rfl, rfl, rfl, rfl⟩
 
 theorem ThEq.chain {t t' : Th} (h : ThEq t t') : chain t' = chain t := by
   simp only [PB.chain, h.buf, h.q]
@@ -90,10 +93,12 @@ theorem PI.congr {ex fl T C} {s s' : BSt} (h : PI ex fl T C s) (hcfg : s'.cfg = 
   sorted := fun i => by rw [(hth i).chain]; exact h.sorted i
   leNow := fun i => by rw [(hth i).chain, hnow]; exact h.leNow i
   qc := fun i => (hth i).qc (h.qc i)
-  bufCache := fun i => by rw [(hth i).buf, hcache]; exact h.bufCache i
+  reg := fun i => by rw [(hth i).chain, hreg]; exact h.reg i
+  bufCache := fun i => by rw [(hth i).buf, hcache, hreg]; exact h.bufCache i
   cacheReg := by rw [hcache, hreg]; exact h.cacheReg
   fresh := by rw [hcache, hreg, hnf]; exact h.fresh
   ctxLt := fun a x i => by rw [hact, hlen]; exact h.ctxLt a x i
+  ctxReg := fun a x i => by rw [hact, hreg, (hth i).valid]; exact h.ctxReg a x i
   ctxInj := fun a b x y i => by rw [hact, hact]; exact h.ctxInj a b x y i
   pend := fun a x st hx hex hp => by
     rw [hact] at hx
@@ -227,6 +232,6 @@ theorem qCommitRead_fields (c : Cfg) (q : Spsc.St) :
 
 theorem ThEq.ofQ (t : Th) (q' : Spsc.St) (h : q'.wpos = t.q.wpos ∧ q'.wHist = t.q.wHist ∧ q'.rpos = t.q.rpos) :
     ThEq t { t with q := q' } :=
-  ⟨rfl, rfl, rfl, h.1, by simp [h.2.1], h.2.2⟩
+  ⟨rfl, rfl, rfl, h.1, by simp [h.2.1], h.2.2, rfl⟩
 
 end Backend.PB
